@@ -152,7 +152,10 @@ class World(object):
         if self.op_budget is not None and self.seq - self.op_seq0 > self.op_budget:
             # bounded liveness: a call made after the last fault has to get where the fault-free twin got, within a generous multiple
             # of the peer calls the twin needed for the WHOLE history (deterministic: counted in peer calls, not in seconds)
+            # (a matter of C12 - "calling integrate again continues correctly" - and, for histories with terminal events, of C09; a check of
+            # another property that re-uses such histories, like C20, does not report it)
             P = self.scn.get("profile", "C12")
+            P = P if P in ("C09", "C12") else "C12"
             self.violate(P, P + ".resume_makes_progress", "op %d made %d peer calls (more than %d = 50 x the fault-free twin's whole history + 5000) and has "
                          "not returned: t=%r, dt=%r" % (self.op_index, self.seq - self.op_seq0, self.op_budget,
                                                          float(np.asarray(self.system.t[-1], dtype=np.float64)), float(np.asarray(self.system.dt, dtype=np.float64))))
